@@ -65,14 +65,23 @@ pub trait Probe: Sized {
     }
 }
 
+/// Spreads an id over all 64 bits (bijective), so that values made from small ids exercise the
+/// full width of their type: a store that loses high bytes or truncates a word shows.
+pub fn scr(id: u64) -> u64 {
+    let mut z = id.wrapping_add(0x9E37_79B9_7F4A_7C15);
+    z = (z ^ (z >> 30)).wrapping_mul(0xBF58_476D_1CE4_E5B9);
+    z = (z ^ (z >> 27)).wrapping_mul(0x94D0_49BB_1331_11EB);
+    z ^ (z >> 31)
+}
+
 /// Marker returned by [`Probe::ident`] for inconsistent values.
 pub const POISON: u64 = 0xDEAD_0000_0000_0000;
 
 macro_rules! probe_int {
     ($($t:ty),*) => {$(
         impl Probe for $t {
-            fn make(id: u64) -> Self { id as $t }
-            fn norm(id: u64) -> u64 { (id as $t) as u64 }
+            fn make(id: u64) -> Self { scr(id) as $t }
+            fn norm(id: u64) -> u64 { (scr(id) as $t) as u64 }
             fn ident(&self) -> u64 { *self as u64 }
         }
     )*};
@@ -81,10 +90,10 @@ probe_int!(u8, u16, u32, u64, usize);
 
 impl Probe for i64 {
     fn make(id: u64) -> Self {
-        id as i64
+        scr(id) as i64
     }
     fn norm(id: u64) -> u64 {
-        id
+        scr(id)
     }
     fn ident(&self) -> u64 {
         *self as u64
@@ -93,10 +102,11 @@ impl Probe for i64 {
 
 impl Probe for u128 {
     fn make(id: u64) -> Self {
+        let id = scr(id);
         ((!id as u128) << 64) | id as u128
     }
     fn norm(id: u64) -> u64 {
-        id
+        scr(id)
     }
     fn ident(&self) -> u64 {
         let lo = *self as u64;
@@ -111,10 +121,10 @@ impl Probe for u128 {
 
 impl Probe for bool {
     fn make(id: u64) -> Self {
-        id & 1 == 1
+        scr(id) & 1 == 1
     }
     fn norm(id: u64) -> u64 {
-        id & 1
+        scr(id) & 1
     }
     fn ident(&self) -> u64 {
         *self as u64
@@ -123,10 +133,10 @@ impl Probe for bool {
 
 impl Probe for char {
     fn make(id: u64) -> Self {
-        char::from_u32(0x20 + (id % 0xD7E0) as u32).unwrap()
+        char::from_u32(0x20 + (scr(id) % 0xD7E0) as u32).unwrap()
     }
     fn norm(id: u64) -> u64 {
-        id % 0xD7E0
+        scr(id) % 0xD7E0
     }
     fn ident(&self) -> u64 {
         (*self as u32 as u64).wrapping_sub(0x20)
@@ -134,11 +144,13 @@ impl Probe for char {
 }
 
 impl Probe for f64 {
+    // 32 bits only: serde_json (without its `float_roundtrip` feature) may be one unit in the
+    // last place off when it parses a float with more digits, which is not truc's concern
     fn make(id: u64) -> Self {
-        (id & ((1 << 52) - 1)) as f64
+        (scr(id) & 0xffff_ffff) as f64
     }
     fn norm(id: u64) -> u64 {
-        id & ((1 << 52) - 1)
+        scr(id) & 0xffff_ffff
     }
     fn ident(&self) -> u64 {
         *self as u64
@@ -147,10 +159,10 @@ impl Probe for f64 {
 
 impl Probe for f32 {
     fn make(id: u64) -> Self {
-        (id & ((1 << 23) - 1)) as f32
+        (scr(id) & ((1 << 23) - 1)) as f32
     }
     fn norm(id: u64) -> u64 {
-        id & ((1 << 23) - 1)
+        scr(id) & ((1 << 23) - 1)
     }
     fn ident(&self) -> u64 {
         *self as u64
@@ -161,6 +173,7 @@ macro_rules! probe_array {
     ($t:ty, $n:expr) => {
         impl Probe for [$t; $n] {
             fn make(id: u64) -> Self {
+                let id = scr(id);
                 let mut a = [0 as $t; $n];
                 for (i, x) in a.iter_mut().enumerate() {
                     *x = (id.wrapping_add((i as u64).wrapping_mul(0x9E37))) as $t;
@@ -168,7 +181,7 @@ macro_rules! probe_array {
                 a
             }
             fn norm(id: u64) -> u64 {
-                (id as $t) as u64
+                (scr(id) as $t) as u64
             }
             fn ident(&self) -> u64 {
                 let first = self[0] as u64;
@@ -191,6 +204,7 @@ probe_array!(u16, 3);
 probe_array!(u32, 3);
 probe_array!(u64, 3);
 probe_array!(u64, 5);
+probe_array!(u64, 40);
 
 impl Probe for () {
     fn make(_id: u64) -> Self {}
@@ -230,10 +244,10 @@ impl Probe for [u16; 0] {
 /// when the model says the field was written.
 impl Probe for MaybeUninit<u64> {
     fn make(id: u64) -> Self {
-        MaybeUninit::new(id)
+        MaybeUninit::new(scr(id))
     }
     fn norm(id: u64) -> u64 {
-        id
+        scr(id)
     }
     fn ident(&self) -> u64 {
         unsafe { self.assume_init() }
@@ -319,14 +333,14 @@ impl Probe for Option<u32> {
         if id % 3 == 0 {
             None
         } else {
-            Some(id as u32)
+            Some(scr(id) as u32)
         }
     }
     fn norm(id: u64) -> u64 {
         if id % 3 == 0 {
             0x4e4f_4e45_0000
         } else {
-            id as u32 as u64
+            scr(id) as u32 as u64
         }
     }
     fn ident(&self) -> u64 {
@@ -346,13 +360,14 @@ pub struct Plain {
 
 impl Probe for Plain {
     fn make(id: u64) -> Self {
+        let id = scr(id);
         Plain {
             a: id as u32,
             b: !(id as u16),
         }
     }
     fn norm(id: u64) -> u64 {
-        id as u32 as u64
+        scr(id) as u32 as u64
     }
     fn ident(&self) -> u64 {
         if self.b == !(self.a as u16) {
@@ -373,10 +388,11 @@ pub struct A16 {
 
 impl Probe for A16 {
     fn make(id: u64) -> Self {
+        let id = scr(id);
         A16 { v: id, w: !id }
     }
     fn norm(id: u64) -> u64 {
-        id
+        scr(id)
     }
     fn ident(&self) -> u64 {
         if self.w == !self.v {
@@ -398,6 +414,7 @@ pub struct A32 {
 
 impl Probe for A32 {
     fn make(id: u64) -> Self {
+        let id = scr(id);
         A32 {
             v: id,
             w: !id,
@@ -405,7 +422,7 @@ impl Probe for A32 {
         }
     }
     fn norm(id: u64) -> u64 {
-        id
+        scr(id)
     }
     fn ident(&self) -> u64 {
         if self.w == !self.v && self.x == self.v.rotate_left(17) {
@@ -426,6 +443,7 @@ pub struct S12 {
 
 impl Probe for S12 {
     fn make(id: u64) -> Self {
+        let id = scr(id);
         S12 {
             a: id as u32,
             b: !(id as u32),
@@ -433,7 +451,7 @@ impl Probe for S12 {
         }
     }
     fn norm(id: u64) -> u64 {
-        id as u32 as u64
+        scr(id) as u32 as u64
     }
     fn ident(&self) -> u64 {
         if self.b == !self.a && self.c == self.a.rotate_left(7) {
@@ -454,6 +472,7 @@ pub struct S6 {
 
 impl Probe for S6 {
     fn make(id: u64) -> Self {
+        let id = scr(id);
         S6 {
             a: id as u16,
             b: !(id as u16),
@@ -461,7 +480,7 @@ impl Probe for S6 {
         }
     }
     fn norm(id: u64) -> u64 {
-        id as u16 as u64
+        scr(id) as u16 as u64
     }
     fn ident(&self) -> u64 {
         if self.b == !self.a && self.c == self.a.rotate_left(3) {
@@ -526,14 +545,14 @@ impl Tracked {
 
 impl Probe for Tracked {
     fn make(id: u64) -> Self {
-        Tracked::with_serial(id, id)
+        Tracked::with_serial(scr(id), id)
     }
     fn make_detached(id: u64) -> Self {
         let serial = NEXT_CLONE_SERIAL.fetch_add(1, std::sync::atomic::Ordering::Relaxed);
-        Tracked::with_serial(id, serial)
+        Tracked::with_serial(scr(id), serial)
     }
     fn norm(id: u64) -> u64 {
-        id
+        scr(id)
     }
     fn ident(&self) -> u64 {
         // Reading the box makes a use after free visible to Miri / memcheck
@@ -594,16 +613,16 @@ impl<'de> serde::Deserialize<'de> for Tracked {
 impl Probe for [Tracked; 2] {
     fn make(id: u64) -> Self {
         [
-            Tracked::with_serial(id, id),
-            Tracked::with_serial(!id, id + PAIR_SERIAL_OFFSET),
+            Tracked::with_serial(scr(id), id),
+            Tracked::with_serial(!scr(id), id + PAIR_SERIAL_OFFSET),
         ]
     }
     fn make_detached(id: u64) -> Self {
         let s0 = NEXT_CLONE_SERIAL.fetch_add(2, std::sync::atomic::Ordering::Relaxed);
-        [Tracked::with_serial(id, s0), Tracked::with_serial(!id, s0 + 1)]
+        [Tracked::with_serial(scr(id), s0), Tracked::with_serial(!scr(id), s0 + 1)]
     }
     fn norm(id: u64) -> u64 {
-        id
+        scr(id)
     }
     fn ident(&self) -> u64 {
         let a = self[0].ident();
@@ -633,17 +652,17 @@ impl Probe for TrackedBig {
     fn make(id: u64) -> Self {
         TrackedBig {
             t: Tracked::make(id),
-            pad: [!id, id.rotate_left(9)],
+            pad: [!scr(id), scr(id).rotate_left(9)],
         }
     }
     fn make_detached(id: u64) -> Self {
         TrackedBig {
             t: Tracked::make_detached(id),
-            pad: [!id, id.rotate_left(9)],
+            pad: [!scr(id), scr(id).rotate_left(9)],
         }
     }
     fn norm(id: u64) -> u64 {
-        id
+        scr(id)
     }
     fn ident(&self) -> u64 {
         let id = self.t.ident();
@@ -686,14 +705,14 @@ impl Tracked12 {
 
 impl Probe for Tracked12 {
     fn make(id: u64) -> Self {
-        Tracked12::with_serial(id as u32, id)
+        Tracked12::with_serial(scr(id) as u32, id)
     }
     fn make_detached(id: u64) -> Self {
         let serial = NEXT_CLONE_SERIAL.fetch_add(1, std::sync::atomic::Ordering::Relaxed);
-        Tracked12::with_serial(id as u32, serial)
+        Tracked12::with_serial(scr(id) as u32, serial)
     }
     fn norm(id: u64) -> u64 {
-        id as u32 as u64
+        scr(id) as u32 as u64
     }
     fn ident(&self) -> u64 {
         self.ident as u64
